@@ -687,9 +687,24 @@ MkLoop(kd, body) ==
       [] kd = "rng"    -> [k |-> "rng", v |-> "i", n |-> 3, lab |-> "", body |-> body]
       [] kd = "rngarr" -> [k |-> "rngarr", s |-> "", v |-> "i", vv |-> "vi", lab |-> "", body |-> body]
       [] kd = "gloop"  -> [k |-> "gloop", lab |-> "B", x |-> "i", n |-> 2, body |-> body]    \* i := 0; B: { body }; if i < 2 { i++; goto B }
+\* the array ranged over is a COPY made when the loop starts: writers of the array in the body (an element,
+\* op=, the swap, through a closure) against observers of the value variable and of the array itself
+ArrMenu ==
+    { PrintS(Var("vi")), PrintS(Bin("add", Var("vi"), Var("i"))),
+      [k |-> "iset", i |-> Lit(1), e |-> Bin("add", Var("vi"), Lit(10))],
+      [k |-> "iset", i |-> Bin("add", Var("i"), Lit(1)), e |-> Lit(40)],
+      [k |-> "iop", i |-> Lit(1), e |-> Var("vi")],
+      [k |-> "iop", i |-> Lit(0), e |-> Lit(3)],
+      [k |-> "iswap"],
+      [k |-> "appclo", body |-> << [k |-> "ret", bare |-> FALSE, e |-> Var("vi")] >>],
+      [k |-> "opasg", x |-> "vi", op |-> "add", e |-> Lit(100)],
+      [k |-> "printg"] }
 LoopFamily ==
     { WProg("", <<>>, << [k |-> "mkfs"], MkLoop(kd, <<b[1], b[2]>>), [k |-> "callall"], [k |-> "printg"] >>) :
         kd \in FamLoopKinds, b \in [1..2 -> LoopMenu] }
+    \cup
+    { WProg("", <<>>, << [k |-> "mkfs"], MkLoop("rngarr", <<b[1], b[2], b[3]>>), [k |-> "callall"], [k |-> "printg"] >>) :
+        b \in [1..3 -> ArrMenu] }
 
 (* SwitchFamily: expression switches over a tag, with the default clause at every   *)
 (* position, fallthrough out of every clause that is not last in source order, a   *)
